@@ -97,13 +97,9 @@ func (e *Engine) Diagnostics(grouping bool) []analysis.Diagnostic {
 		return cmp.Compare(a.position.Offset, b.position.Offset)
 	})
 
-	conflicts := e.conflicts
-	if grouping {
-		// Group conflicts with the same nil path together for concise reporting.
-		conflicts = groupConflicts(e.conflicts, e.pass)
-	}
-
-	// Build diagnostics from conflicts. Apply cross-package nolint suppressions here as well.
+	// Apply the nolint suppressions (including cross-package ones) and the test-file filter to each
+	// conflict individually _before_ grouping: a suppressed conflict must neither show up in the
+	// "other place(s)" list of another diagnostic, nor hide the similar conflicts grouped under it.
 	nolintResult := e.pass.ResultOf[NoLintAnalyzer].(*analysishelper.Result[[]Range])
 	if nolintResult.Err != nil {
 		panic(fmt.Sprintf("failed to get nolint ranges: %v", nolintResult.Err))
@@ -112,8 +108,8 @@ func (e *Engine) Diagnostics(grouping bool) []analysis.Diagnostic {
 
 	conf := e.pass.ResultOf[config.Analyzer].(*config.Config)
 
-	diagnostics := make([]analysis.Diagnostic, 0, len(conflicts))
-	for _, c := range conflicts {
+	conflicts := make([]conflict, 0, len(e.conflicts))
+	for _, c := range e.conflicts {
 		if slices.ContainsFunc(nolintRanges, func(r Range) bool {
 			return c.position.Filename == r.Filename && c.position.Line >= r.From && c.position.Line <= r.To
 		}) {
@@ -122,6 +118,17 @@ func (e *Engine) Diagnostics(grouping bool) []analysis.Diagnostic {
 		if conf.ExcludeTestFiles && involvesTestFile(c) {
 			continue
 		}
+		conflicts = append(conflicts, c)
+	}
+
+	if grouping {
+		// Group conflicts with the same nil path together for concise reporting.
+		conflicts = groupConflicts(conflicts, e.pass)
+	}
+
+	// Build diagnostics from conflicts.
+	diagnostics := make([]analysis.Diagnostic, 0, len(conflicts))
+	for _, c := range conflicts {
 		diagnostics = append(diagnostics, analysis.Diagnostic{
 			Pos:     e.toPos(c.position),
 			Message: c.String(),
